@@ -256,6 +256,7 @@ type reproFile struct {
 	Frames   []string          `json:"frames"`
 	Size     int               `json:"size"`
 	Input    string            `json:"input_b64,omitempty"`
+	SeedFile string            `json:"seed_file,omitempty"` // inputs > 64 KiB: the functest file to apply Mutation to
 	Bin      string            `json:"bin,omitempty"` // file under repro/ holding the input (shared between keys with identical input)
 	Desc     string            `json:"desc"`
 }
@@ -288,6 +289,15 @@ func (e *engine) loadRepro(path string) {
 			bin = filepath.Join(filepath.Dir(path), rf.Bin)
 		}
 		data, err = os.ReadFile(bin)
+		if err != nil && rf.SeedFile != "" {
+			var base []byte
+			if base, err = os.ReadFile(rf.SeedFile); err == nil {
+				var m mutate.Mutation
+				if m, err = mutate.ParseSpec(rf.Mutation); err == nil {
+					data = m.Apply(base)
+				}
+			}
+		}
 		if err != nil {
 			fmt.Println("C11: reproducer without input:", path)
 			return
@@ -1283,6 +1293,10 @@ func (e *engine) report() {
 				case len(input) <= 64<<10 && total+len(input) <= 1900<<10:
 					rf.Bin = name + ".bin"
 					must(os.WriteFile(filepath.Join(reproDir, rf.Bin), input, 0o644))
+				case seed.Source != "":
+					rf.SeedFile = seed.Source
+					jb, _ := json.MarshalIndent(rf, "", " ")
+					must(os.WriteFile(jp, append(jb, '\n'), 0o644))
 				default:
 					fmt.Printf("C11: reproducer for %s not stored (%d bytes; corpus holds %d): use the replay file\n", k, len(input), total)
 				}
@@ -1300,6 +1314,8 @@ func (e *engine) report() {
 		}
 		if len(input) <= 64<<10 {
 			rf.Input = base64.StdEncoding.EncodeToString(input)
+		} else if seed.Source != "" {
+			rf.SeedFile = seed.Source
 		}
 		run.Violation(k, rf.Desc, rf)
 	}
